@@ -4,4 +4,5 @@ pub mod rng;
 pub mod lean;
 pub mod report;
 pub mod world;
+pub mod chain;
 pub mod props;
